@@ -6,6 +6,8 @@ import Cicada.Model.Core
 import Cicada.Model.Alias
 import Cicada.Model.Script
 import Cicada.Model.Locust
+import Cicada.Model.ScriptRun
+import Cicada.Spec.C14
 import Cicada.Spec.C17
 import Cicada.Spec.C03
 import Cicada.Spec.C01
@@ -222,6 +224,77 @@ partial def ptDump : Locust.PT → String
     let tt := trim t
     if tt.isEmpty then "" else
     "(" ++ r ++ " " ++ hexOfBytes (String.ofList tt).toUTF8 ++ String.join (kids.map (fun k => let d := ptDump k; if d = "" then "" else " " ++ d)) ++ ")"
+
+/-! ### script execution under a scripted `run_proc` -/
+
+structure DSt where
+  vars : List (Str × Str) := []
+  counts : List (Str × Nat) := []
+  trace : List (Str × Int × List Str) := []
+
+def seqIn (s : String) : List (Str × List Int) :=
+  if s = "[]" ∨ s = "" then [] else
+  (s.splitOn ",").filterMap (fun p => match p.splitOn ":" with
+    | [a, b] => some (unhex a, (b.splitOn ".").filterMap String.toInt?)
+    | _ => none)
+
+def scriptSem (base : Env) (seq : List (Str × List Int)) (watch : List Str) (args : List Str) : Sem DSt :=
+  let runPipe : DSt → Str → DSt × Int := fun st t =>
+    let n := ((st.counts.find? (fun p => p.1 = t)).map (·.2)).getD 0
+    let status : Int := match (seq.find? (fun p => p.1 = t)).map (·.2) with
+      | some (v :: vs) => (v :: vs).getD (min n vs.length) 0
+      | _ => 0
+    let vals := watch.map (fun w => (lookup st.vars w).getD ((lookup base.exported w).getD []))
+    ({ st with counts := (t, n + 1) :: st.counts.filter (fun p => p.1 ≠ t), trace := st.trace ++ [(t, status, vals)] }, status)
+  { runLine := fun st line =>
+      let r := runCommandLine runPipe st line
+      (r.sh, (r.trace.getLast?).map (·.2)),
+    setVar := fun st n v => { st with vars := (n, v) :: st.vars.filter (fun p => p.1 ≠ n) },
+    words := fun st init =>
+      let se : SubstEnv := { env := { base with vars := st.vars ++ base.vars }, cmdOut := fun _ => [] }
+      let ts := expandArgsInTokens args (parseLine init)
+      match doExpansion se (planFuel init) ts with
+      | .ok ts' => ts'.flatMap (fun (sep, text) =>
+          if sep = [] then ((String.ofList text).splitOn " ").filterMap (fun w => if w.trimAscii.toString = "" then none else some w.trimAscii.toString.toList)
+          else [text])
+      | _ => [],
+    exitOnError := fun _ => false }
+
+def traceOut3 (tr : List (Str × Int × List Str)) : String :=
+  if tr.isEmpty then "[]" else ",".intercalate (tr.map (fun (l, s, vs) => hex l ++ ":" ++ toString s ++ ":" ++ "/".intercalate (vs.map hex)))
+
+instance : Inhabited C14.Block := ⟨.nil⟩
+instance : Inhabited C14.Arms := ⟨.nil⟩
+
+/-- AST on the wire: tokens separated by blanks: `c HEX` | `b` | `k` | `i N (t HEX { … })*N e { … }` | `f HEXVAR HEXINIT { … }` | `w HEX { … }` -/
+partial def pBlockW : List String → C14.Block × List String
+  | [] => (.nil, [])
+  | "}" :: rest => (.nil, rest)
+  | "c" :: l :: rest => let (b, r) := pBlockW rest; (.cons (.cmd (unhex l)) b, r)
+  | "b" :: rest => let (b, r) := pBlockW rest; (.cons .brk b, r)
+  | "k" :: rest => let (b, r) := pBlockW rest; (.cons .cont b, r)
+  | "w" :: t :: "{" :: rest =>
+    let (body, r1) := pBlockW rest
+    let (b, r) := pBlockW r1
+    (.cons (.whl (unhex t) body) b, r)
+  | "f" :: v :: init :: "{" :: rest =>
+    let (body, r1) := pBlockW rest
+    let (b, r) := pBlockW r1
+    (.cons (.for (unhex v) (unhex init) body) b, r)
+  | "i" :: rest =>
+    let rec arms (ts : List String) : C14.Arms × List String := match ts with
+      | "t" :: c :: "{" :: more =>
+        let (body, r1) := pBlockW more
+        let (as, r2) := arms r1
+        (.cons (unhex c) body as, r2)
+      | other => (.nil, other)
+    let (as, r1) := arms rest
+    let (els, r2) : C14.Block × List String := match r1 with
+      | "e" :: "{" :: more => pBlockW more
+      | other => (.nil, other)
+    let (b, r) := pBlockW r2
+    (.cons (.ite as els) b, r)
+  | _ :: rest => pBlockW rest
 
 def answer (stream : String) (f : Array String) : Ans :=
   let g (i : Nat) : String := f.getD i "-"
@@ -500,6 +573,26 @@ def answer (stream : String) (f : Array String) : Ans :=
   | "ptree" => { m := match Locust.parseLines (unhex (g 0)) with
       | some t => ptDump t
       | none => "SYNTAX-ERROR" }
+  | "srun" =>
+    let es := envIn (g 0)
+    let text := unhex (g 1)
+    let args := if g 2 = "[]" then [] else ((g 2).splitOn ",").map unhex
+    let seq := seqIn (g 3)
+    let watch := if g 4 = "[]" then [] else ((g 4).splitOn ",").map unhex
+    let sem := scriptSem es.env seq watch (args.drop 1)
+    let fuel := 4000
+    let m : String := match runLines sem (args.drop 1) fuel text {} with
+      | .ok (some r) => traceOut3 r.st.trace
+      | .ok none => "SYNTAX-ERROR"
+      | .diverge _ => "HANG"
+      | _ => "ERR"
+    if g 5 = "-" ∨ g 5 = "" then { m := m } else
+    let (ast, _) := pBlockW (((g 5).splitOn " ").filter (· ≠ ""))
+    let s : String := match C14.semBlock sem fuel ast false {} with
+      | .ok (st, _) => traceOut3 st.trace
+      | .diverge _ => "HANG"
+      | _ => "ERR"
+    { m := m, s := s, guard := "1" }
   | "globneeds" =>
     -- which patterns will `expand_glob` hand to the glob crate for this case (f2: line | line1 | tokens)
     let es := envIn (g 0)
